@@ -54,7 +54,14 @@ func genEmit(t *rapid.T) EmitCase {
 			k := rapid.IntRange(0, 3).Draw(t, "pre."+name)
 			var pre []sm.Op
 			for i := 0; i < k; i++ {
-				pre = append(pre, sm.Op{Op: "emit", V: map[string]interface{}{"from": name, "i": float64(i)}})
+				m := map[string]interface{}{"from": name, "i": float64(i)}
+				if rapid.IntRange(0, 5).Draw(t, fmt.Sprintf("oddto.%s.%d", name, i)) == 0 {
+					// a routing field that names nobody in particular (not
+					// a string, not a list of strings): such a message
+					// goes to everybody
+					m["to"] = rapid.SampledFrom([]interface{}{42.0, true, map[string]interface{}{"mid": "billing"}}).Draw(t, fmt.Sprintf("oddtov.%s.%d", name, i))
+				}
+				pre = append(pre, sm.Op{Op: "emit", V: m})
 			}
 			n.Action.Ops = append(pre, n.Action.Ops...)
 		}
